@@ -13,6 +13,7 @@ objects are numbered in creation order by wrapping their constructor inside this
 import asyncio
 import warnings
 
+import kiwipy
 import plumpy
 from plumpy import futures as pfutures
 from plumpy import process_states as ps
@@ -144,6 +145,17 @@ class Hooks:
             if p['hook'] == name and p['occ'] == k:
                 self.perform(proc, p, name, k)
                 return
+
+    def fire_comm(self, subject):
+        """the k-th state_changed broadcast after construction (hook 'bcast'): a planned fault makes broadcast_send raise"""
+        if 'bcast' not in self.names:
+            return
+        self.occ['bcast'] += 1
+        k = self.occ['bcast']
+        for p in self.plan:
+            if p['hook'] == 'bcast' and p['occ'] == k and p['req'] == 'fault':
+                self.log.append(('fault', 'bcast', k, p['arg']))
+                raise comm_exception(p['arg'])
 
     def perform(self, proc, p, name, k):
         req, arg = p['req'], p['arg']
@@ -367,11 +379,40 @@ def build_workchain_class(prog, awt):
     return outline_real.register(klass)
 
 
+class HarnessCommunicator(kiwipy.LocalCommunicator):
+    """In-process communicator: records state_changed broadcasts, can make broadcast_send fail at a planned occurrence."""
+
+    def __init__(self, run):
+        super().__init__()
+        self.run = run
+        self.armed = False
+
+    def broadcast_send(self, body, sender=None, subject=None, correlation_id=None):
+        if self.armed and isinstance(subject, str) and subject.startswith('state_changed'):
+            self.run.hooks.fire_comm(subject)
+        if isinstance(subject, str) and subject.startswith('state_changed'):
+            _, frm, to = subject.split('.')
+            self.run.log.append(('bcast', 'state_changed', '-' if frm == 'None' else frm.upper(), to.upper(),
+                                 ) if sender == self.run.expected_sender() else ('bcast', 'WRONG-SENDER', repr(sender), subject))
+        return super().broadcast_send(body, sender=sender, subject=subject, correlation_id=correlation_id)
+
+
+def comm_exception(tag):
+    import aio_pika.exceptions as ae
+    if tag == 'ConnectionClosed':
+        return ae.ConnectionClosed(0, 'closed')
+    if tag == 'ChannelInvalidStateError':
+        return ae.ChannelInvalidStateError('invalid')
+    if tag == 'TimeoutError':
+        return kiwipy.TimeoutError('timeout')
+    return Injected(tag)
+
+
 class Run:
     """One execution of the real implementation, driven action by action."""
 
     def __init__(self, prog, plan=(), out_missing=False, medium='pickle', listener=True, check_roundtrip=False,
-                 inputs=None, awt=(), children=False):
+                 inputs=None, awt=(), children=False, comm=False):
         del _ACTS[:]
         self.loop = vloop.install()
         self.log = []
@@ -387,9 +428,73 @@ class Run:
         self.use_children = children
         cls = build_workchain_class(prog, self.awt) if self.awt else build_class(prog, out_missing)
         self.cls = cls
-        self.proc = p = cls(inputs=inputs) if inputs is not None else cls()
+        self.comm = HarnessCommunicator(self) if comm else None
+        self.replies = []
+        self.rpc_tramp = []          # rpc indices whose trampoline has not run yet
+        self.rpc_tasks = {}          # task -> rpc index
+        self.rpc_started = set()
+        self.proc = None
+        kw = {}
+        if inputs is not None:
+            kw['inputs'] = inputs
+        if comm:
+            kw['communicator'] = self.comm
+        self.proc = p = cls(**kw)
+        if comm:
+            self.comm.armed = True
         self.use_listener = listener
         self._attach(p)
+
+    def expected_sender(self):
+        return self.proc.pid if self.proc is not None else _AnyPid()
+
+    # ---- remote control through the communicator ------------------------------------------------------
+    def deliver(self, kind, intent, text):
+        from plumpy.process_comms import MessageBuilder
+        p = self.proc
+        msg = {'pause': MessageBuilder.pause, 'play': MessageBuilder.play, 'kill': MessageBuilder.kill,
+               'status': MessageBuilder.status}.get(intent, lambda text=None: {'intent': intent, 'message': text})(text=pyval(text))
+        ident = str(p.pid)
+        if kind == 'rpc':
+            try:
+                fut = self.comm.rpc_send(ident, msg)
+            except kiwipy.UnroutableError:
+                self.log.append(('rpc', intent, 'unroutable'))
+                self.settle()
+                return
+            if fut.exception() is not None:
+                self.log.append(('rpc', intent, type(fut.exception()).__name__))
+            elif intent == 'status':
+                info = fut.result()
+                self.log.append(('rpc', 'status', info['state'].split('.')[-1], info['paused']))
+            else:
+                self.replies.append(fut.result())
+                self.rpc_tramp.append(len(self.replies))
+                self.log.append(('rpc', intent, 'scheduled'))
+        else:
+            subscribed = ident in self.comm._broadcast_subscribers
+            self.comm.broadcast_send(msg, sender='env', subject=intent)
+            if not subscribed:
+                self.log.append(('bcast', intent, 'unroutable'))
+            elif intent in ('pause', 'play', 'kill'):
+                self.replies.append(None)
+                self.rpc_tramp.append(len(self.replies))
+                self.log.append(('bcast', intent, 'scheduled'))
+            else:
+                self.log.append(('bcast', intent, 'ignored'))
+        self.settle()
+
+    def reply_status(self, f):
+        if f is None:
+            return 'n/a'
+        if f.cancelled():
+            return 'cancelled'
+        if not f.done():
+            return 'pending'
+        e = f.exception()
+        if e is not None:
+            return 'failed:' + exc_tag(e)
+        return 'done:' + mval(f.result())
 
     # ---- awaitables (futures completed by the environment, or child processes launched by the step) ----
     def awaitable(self, j):
@@ -510,6 +615,13 @@ class Run:
         if owner in self.cb_tasks:
             return 'cb' + self.cb_tasks[owner]
         q = getattr(h._callback, '__qualname__', '')
+        if owner in self.rpc_tasks and owner.done():
+            return 'noise'                # e.g. the Task.cancel handle scheduled by _chain_future on a finished task
+        if owner in self.rpc_tasks:
+            i = self.rpc_tasks[owner]
+            return ('rpcW%d' if i in self.rpc_started else 'rpc%d') % i
+        if q == 'run_coroutine_threadsafe.<locals>.callback' and self.rpc_tramp:
+            return 'rpcT%d' % self.rpc_tramp[0]
         if q.endswith('Waiting._awaitable_done') and getattr(h._callback, '__self__', None) is not None \
                 and h._callback.__self__.process is self.proc:
             for j in self.futs:
@@ -539,7 +651,12 @@ class Run:
         kind = self.next_kind()
         if kind is None:
             return None
+        ntasks = len(self.loop.tasks)
         self.loop.step_one()
+        if kind.startswith('rpcT'):
+            self.rpc_tasks[self.loop.tasks[ntasks]] = self.rpc_tramp.pop(0)
+        elif kind.startswith('rpc') and not kind.startswith('rpcW'):
+            self.rpc_started.add(int(kind[3:]))
         self._after_handle()
         self.settle()
         return kind
@@ -627,6 +744,7 @@ class Run:
             'state': LABEL[p.state], 'paused': p.paused, 'killing': p.is_killing, 'status': mval(p.status),
             'fut': fut, 'closed': bool(p._closed), 'task': task, 'outputs': flat_outputs(p.outputs),
             'acc': accessors(p), 'acts': [act_status(a) for a in _ACTS],
+            'rpcs': [self.reply_status(f) for f in self.replies],
         }
 
 
@@ -673,6 +791,11 @@ def observables(p):
             'inputs': deep(p.inputs) if p.inputs is not None else None, 'outputs': deep(p.outputs), 'status': p.status,
             'paused': p.paused, 'ctime': p.creation_time, 'outcome': accessors(p),
             'ctx': deep(p.ctx.__dict__) if hasattr(p, 'ctx') else None}
+
+
+class _AnyPid:
+    def __eq__(self, other):
+        return True
 
 
 def flat_outputs(d):
@@ -738,4 +861,5 @@ def project_model(S):
         'fut': [fut['st'], fv], 'closed': S['closed'],
         'task': 'failed:' + S['task']['err'] if pc == 'failed' else 'done' if pc == 'done' else 'live',
         'outputs': norm(S['outputs']), 'acc': acc, 'acts': [a['status'] for a in S['acts']],
+        'rpcs': ['n/a' if m['kind'] == 'bcast' else ('pending' if m['st'] in ('sched', 'await', 'woken') else m['st']) for m in S['rpcs']],
     }
